@@ -364,6 +364,71 @@ impl Family for Tags {
     }
 }
 
+
+/// Layout of tag lines: indentation before '@' (ASCII and non-ASCII white space, mixed), white space between the
+/// tag keyword, the identifier and the colon, after an overview or alone, continuation lines indented differently.
+pub struct TagLayouts {
+    forms: Vec<Vec<String>>,
+}
+const TAG_INDENTS: [&str; 8] = ["", " ", "   ", "\t", "\u{3000}", "\u{a0}", " \u{2003} ", "\u{2003}\t"];
+const TAG_GAPS: [&str; 4] = [" ", "  ", "\t", "\u{3000}"];
+impl TagLayouts {
+    pub fn new() -> Self {
+        let mut forms = vec![];
+        for ind in TAG_INDENTS {
+            for gap in TAG_GAPS {
+                for pre_colon in ["", " ", "\u{a0}"] {
+                    for ov in [false, true] {
+                        let o: Vec<String> = if ov { vec![" Overview line.".into(), format!("{ind}more overview")] } else { vec![] };
+                        let mk = |tags: Vec<String>| {
+                            let mut f = o.clone();
+                            f.extend(tags);
+                            f
+                        };
+                        forms.push(mk(vec![format!("{ind}@param{gap}a{pre_colon}: the a"), format!("{ind}@returns{gap}x{pre_colon}: the x"), format!("{ind}@see{gap}IS")]));
+                        forms.push(mk(vec![format!("{ind}@param{gap}a{pre_colon}:{gap}the a"), format!("{ind}  continued"), format!("{ind}@param{gap}b{pre_colon}: the b")]));
+                        forms.push(mk(vec![format!("{ind}@returns{pre_colon}:{gap}value"), format!("{ind}@see{gap}IE::EA")]));
+                        forms.push(mk(vec![format!("{ind}@see{gap}IS{pre_colon}")]));
+                    }
+                }
+            }
+        }
+        TagLayouts { forms }
+    }
+}
+impl Family for TagLayouts {
+    fn name(&self) -> String {
+        format!("tag-layouts/{} forms: 8 indentations before '@' (ASCII, non-ASCII, mixed) x 4 gaps after the keyword x 3 gaps before ':' x with/without overview x 4 tag groups; position rotates over the 3 operations and 2 other elements", self.forms.len())
+    }
+    fn len(&self) -> u64 {
+        self.forms.len() as u64 * 2
+    }
+    fn describe(&self, idx: u64) -> Value {
+        json!({"comment_lines": self.forms[(idx / 2) as usize], "position": Self::pos(idx)})
+    }
+    fn run(&self, idx: u64) -> CaseOut {
+        let lines = &self.forms[(idx / 2) as usize];
+        let pos = Self::pos(idx);
+        let p = place_doc(pos, lines, idx % 4 == 1);
+        let mut out = CaseOut::new(hash_str(&format!("taglayout{lines:?}{pos}")));
+        out.steps = 0;
+        out.validated = 1;
+        out.nontrivial = true;
+        out.class = check_doc_program(&p, &Layout::uniform(Sep::Space, Commas::None), "tag-layouts", &mut out, false);
+        out
+    }
+}
+impl TagLayouts {
+    fn pos(idx: u64) -> usize {
+        // even: the operation returning a tuple (all tags fit); odd: rotate over single / none / struct / field
+        if idx % 2 == 0 {
+            3
+        } else {
+            [9usize, 10, 0, 1][((idx / 2) % 4) as usize]
+        }
+    }
+}
+
 /// Link targets of every kind and scope distance from every position.
 pub struct LinkTargets;
 const TARGETS: [&str; 26] = [
@@ -454,5 +519,5 @@ impl Family for Malformed {
 }
 
 pub fn families(tier: &str) -> Vec<Box<dyn Family>> {
-    vec![Box::new(Malformed), Box::new(LinkTargets), Box::new(Tags::new()), Box::new(Overviews::new(if tier == "quick" { 3 } else { 4 }))]
+    vec![Box::new(Malformed), Box::new(LinkTargets), Box::new(Tags::new()), Box::new(TagLayouts::new()), Box::new(Overviews::new(if tier == "quick" { 3 } else { 4 }))]
 }
